@@ -6,7 +6,7 @@ set -u
 id="$1"; x="$2"; shift 2
 ID="$(echo "$id" | tr a-z A-Z)"
 checks=("$@"); [ ${#checks[@]} -eq 0 ] && checks=("$ID")
-W="/tmp/seed_$id"; O="$W/out/$x"; V="$(cd "$(dirname "$0")/.." && pwd)"
+W="${SEED_DIR:-/tmp/seed_$id}"; O="$W/out/$x"; V="$(cd "$(dirname "$0")/.." && pwd)"
 D="$V/seeded/$ID-$x"; mkdir -p "$D"
 cd "$W" || exit 2
 git checkout -q -- . ; git clean -fdq -e out
